@@ -131,4 +131,7 @@ def _run(pm: ProgramModel, ctx: Ctx, mb: ModelBuilder, cd: Codec) -> None:
         cd.thorough_pairs(mb, OPS, "VOC", model_of=lambda trees: ctc_model(mb, [t for _, t in trees]))
         cd.thorough_kind_pairs(mb, [D(1, 1, 1), D(0, 1, 1), D(1, 1, 2), D(1, 2, 2), D(0, 1, 2), D(2, 3, 3), D(0, 2, 2)],
                                model_of=lambda ds: afm_model(mb, ds))
+    from ..codec import stress_trees
+    cd.report("VOC", "stress-shapes", cd.roundtrip(ctc_model(mb, [t for nm, t in stress_trees(mb) if nm != "triple_negation"])),
+              "constraint shapes that stress normal forms", ("constraint", "constraint-count"))
     cd.finish_unowned()
